@@ -91,7 +91,7 @@ SHAPES = {1: (4,), 2: (3, 4), 3: (2, 3, 2)}
 
 def cases(tier, seed):
     out = []
-    DP = [(1, 1), (2, 2), (3, 1)] if tier == 'quick' else [(1, 1), (2, 2), (3, 1), (2, 3), (4, 2), (1, 3), (5, 1), (3, 3)]
+    DP = [(1, 1), (2, 2), (3, 1), (2, 5)] if tier == 'quick' else [(1, 1), (2, 2), (3, 1), (2, 3), (4, 2), (1, 3), (5, 1), (3, 3)]
     kinds = ['real', 'complex', 'nonfinite']
 
     def add(kind, **prm):
